@@ -70,55 +70,62 @@ def mpe(prog, max_worlds=1 << 14):
         consistent[pick] = okc
         if okc and w > 0 and (best is None or w > best):
             best = w
-    # choice groups that are syntactically reachable from the evidence but on which its truth never depends: the system may or may
-    # not keep them in the ground program (a deterministically true alternative proof makes it drop them); each contributes the
-    # factor max(option probability) to the optimum when it is kept
-    LAST_INFO["irrelevant_factors"] = []
-    LAST_INFO["irrelevant_groups"] = []
-    for gi, ol in enumerate(optlists):
-        dep = False
-        for pick, okc in consistent.items():
-            if pick[gi] != 0:
-                continue
-            for k in range(1, len(ol)):
-                alt = pick[:gi] + (k,) + pick[gi + 1:]
+    # Options (and whole groups) that are syntactically reachable from the evidence but never change whether it holds: the system may
+    # keep such an option as a separate alternative, merge it into the "none of the relevant heads" alternative, or (a group without any
+    # relevant option) leave the group out of the ground program.  Each choice gives a different - equally legitimate - optimum.
+    nopt = [len(ol) for ol in optlists]
+    relevant = [[False] * n for n in nopt]
+    for pick, okc in consistent.items():
+        for gi in range(len(optlists)):
+            last = nopt[gi] - 1
+            if pick[gi] != last and not relevant[gi][pick[gi]]:
+                alt = pick[:gi] + (last,) + pick[gi + 1:]
                 if consistent[alt] != okc:
-                    dep = True
-                    break
-            if dep:
-                break
-        if not dep:
-            LAST_INFO["irrelevant_factors"].append(max(p for _o, p in ol))
-            LAST_INFO["irrelevant_groups"].append([p for _o, p in ol])
+                    relevant[gi][pick[gi]] = True
+    patterns = set()
+    for pick, okc in consistent.items():
+        if okc:
+            patterns.add(tuple(k if (k != nopt[gi] - 1 and relevant[gi][k]) else -1 for gi, k in enumerate(pick)))
+    LAST_INFO["patterns"] = patterns
+    LAST_INFO["optprobs"] = [[p for _o, p in ol] for ol in optlists]
+    LAST_INFO["relevant"] = relevant
+    LAST_INFO["irrelevant_groups"] = [gi for gi in range(len(optlists)) if not all(relevant[gi][:-1])]
     return ("ok" if best is not None else "unsat", best, nw, len(gl))
 
 
-LAST_INFO = {"irrelevant_factors": [], "irrelevant_groups": []}
+LAST_INFO = {"patterns": set(), "optprobs": [], "relevant": [], "irrelevant_groups": []}
 
 
-def feasible_optima(best, groups, limit=200000):
-    """optima the system may legitimately report when the choice groups in `groups` (option probability lists, last = merged rest) are
-    irrelevant to the evidence: each such group may be absent from the ground program (factor 1) or present with any subset S of its
-    options kept separate and the others merged (factor max(max S, 1 - sum S)).  Returns a sorted list of floats (deduplicated)."""
+def feasible_optima(limit=20000):
+    """optima the system may legitimately report, one per way of treating the evidence-irrelevant options (see mpe()); None if too many"""
     import itertools
-    base = float(best)
-    for g in groups:
-        base /= float(max(g))
-    reach = {round(base, 15): base}
-    for g in groups:
-        ps = [float(x) for x in g[:-1]]
-        fs = {1.0}
-        for r in range(0, len(ps) + 1):
-            for S in itertools.combinations(ps, r):
-                f = max(list(S) + [1.0 - sum(S)])
-                if f > 0:
-                    fs.add(round(f, 12))
-        nxt = {}
-        for v in reach.values():
-            for f in fs:
-                w = v * f
-                nxt[float("%.9e" % w)] = w
-        reach = nxt
-        if len(reach) > limit:
+    pats, probs, rel = LAST_INFO["patterns"], LAST_INFO["optprobs"], LAST_INFO["relevant"]
+    msets = []
+    total = 1
+    for gi, ps in enumerate(probs):
+        none = float(ps[-1])
+        irr = [float(p) for k, p in enumerate(ps[:-1]) if not rel[gi][k]]
+        ms = set()
+        for r in range(len(irr) + 1):
+            for M in itertools.combinations(range(len(irr)), r):
+                rest = [irr[k] for k in range(len(irr)) if k not in M]
+                ms.add(round(max([none + sum(irr[k] for k in M)] + rest), 12))
+        if not any(rel[gi][:-1]):
+            ms.add(1.0)            # a group without any relevant option may be absent altogether
+        msets.append(sorted(ms))
+        total *= len(ms)
+        if total > limit:
             return None
-    return sorted(reach.values())
+    out = set()
+    for mvec in itertools.product(*msets):
+        best = 0.0
+        for a in pats:
+            w = 1.0
+            for gi, k in enumerate(a):
+                w *= float(probs[gi][k]) if k >= 0 else mvec[gi]
+                if w <= best:
+                    break
+            if w > best:
+                best = w
+        out.add(float("%.12e" % best))
+    return sorted(out)
